@@ -68,6 +68,12 @@ var pinned = []pinnedCase{
 	{Kind: "diff", Src: `\$+\B`, Flags: "", Subj: us("$$A"), Comment: "regexp2: a loop of non-word characters is made atomic when \\B follows"},
 	{Kind: "diff", Src: `[\W\t-xx]`, Flags: "", Subj: us("x"), Comment: "regexp2: \\W inside a class with overlapping items loses members"},
 	{Kind: "diff", Src: `[\$-\-\n]`, Flags: "g", Subj: us("$$"), Comment: "fixed (inbox C20-h): regexp2 rejected this class that RE2 accepted and createRegexp2 panicked with a Go error"},
+	// --- found by the thorough tier (seed 1, 400 k)
+	{Kind: "diff", Src: `\d+\udfff`, Flags: "", Subj: []uint16{'1', 0xDFFF}, Comment: "regexp2: a single literal surrogate code unit after a loop / set is lost (same family as the surrogate literal runs)"},
+	{Kind: "diff", Src: `\u00a0?\u00a0\B`, Flags: "", Subj: []uint16{'_', 0xA0, 0xA0, 'b'}, Comment: "regexp2: x?x is coalesced into a loop and made atomic before \\B"},
+	{Kind: "diff", Src: `\D|k|k`, Flags: "", Subj: us("k"), Comment: "regexp2: single-character alternatives merged into a set lose members when one of them is \\D"},
+	{Kind: "diff", Src: `\n|.|\n`, Flags: "", Subj: us("\n"), Comment: "regexp2: same set merge with '.' as the negated member"},
+	{Kind: "diff", Src: `B|[Bb]c`, Flags: "", Subj: us("bc"), Comment: "Go regexp/syntax: [Bb] becomes a case-folded literal and is factored with the plain literal B of the neighbouring alternative"},
 }
 
 func runPinned(c *core.Ctx, p pinnedCase) core.Result {
